@@ -146,6 +146,19 @@ class JinjaEvaluator(expr_base.Evaluator):
         return errors
 
     @classmethod
+    def _expand_iterables(cls, value):
+        if isinstance(value, dict):
+            return {k: cls._expand_iterables(v) for k, v in value.items()}
+        elif isinstance(value, list):
+            return [cls._expand_iterables(v) for v in value]
+        elif inspect.isgenerator(value) or isinstance(
+            value, (type({}.keys()), type({}.values()), type({}.items()))
+        ):
+            return [cls._expand_iterables(v) for v in value]
+
+        return value
+
+    @classmethod
     def _raise_on_undefined(cls, value):
         if isinstance(value, dict):
             for k, v in value.items():
@@ -186,8 +199,9 @@ class JinjaEvaluator(expr_base.Evaluator):
                     compiled = cls._jinja_env.compile_expression(stripped, **opts)
                     result = compiled(**ctx)
 
-                    if inspect.isgenerator(result):
-                        result = list(result)
+                    # The result is a JSON value: a generator, or a view of the keys, values or
+                    # items of a dict, is returned as a list, at any depth of the result.
+                    result = cls._expand_iterables(result)
 
                     # An undefined value inside of a list or dict is as much an error as
                     # an undefined result.
